@@ -145,7 +145,9 @@ class World:
         _l, a, d, p = self.tl.IDENTITIES[idx]
         ident = cache._identity(AuthContext(domain=d, authenticated=True, principal=p) if a else None)
         entries = dict(cache._entries)
-        entry = entries.get((call_id, ident), entries.get(call_id))
+        entry = entries.get((call_id, ident))
+        if entry is None:  # tolerate another key layout: any key that names this call id
+            entry = next((v for k, v in entries.items() if (k[0] if isinstance(k, tuple) else k) == call_id), None)
         if entry is None:
             return "absent"
         exp = entry[0]
@@ -347,7 +349,7 @@ def main(tier: str, seed: int) -> int:
         "forced call-id collisions are generated only between streams of different identities; the anon vs ('', 'anonymous') pair is excluded (cache identity strings coincide; reachable only with a 2^-128 collision)",
         "the repo's _open_cursor_token/_compute_aad are used as a tool to read returned cursors",
     ]
-    n, nc = (700, 200) if tier == "quick" else (24000, 6000)
+    n, nc = (600, 160) if tier == "quick" else (10000, 2500)
     hs = [f"h:{seed}:{i}" for i in range(n)] + [f"collide:{seed}:{i}" for i in range(nc)]
     random.Random(f"C14:{seed}").shuffle(hs)
     jobs = [{"histories": part, "tier": tier, "seed": seed} for part in shard.split(hs, 12 if tier == "quick" else 64)]
